@@ -17,5 +17,9 @@ def run(ctx):
     ctx.assumptions += ["saturation clause (C07_Saturation): ratios are cross-multiplied on recomputed allocations; the session's float fair "
                         "shares are logged rounded to 1/1000 GPU, 1 milli-CPU, 1 MB - when the logged value is not exact a violation is "
                         "reported only if it survives the rounding error"]
-    n = 400 if ctx.quick else 10000
+    n = 1200 if ctx.quick else 12000
     st_cluster.run_stage(ctx, PREFIXES, [("full", n // 4), ("closed", n // 8), ("mixed", n // 8), ("reclaim2", n // 4), ("sat", n // 2)], nontrivial_fn=nontrivial)
+
+
+def replay(ctx, obj):
+    st_cluster.replay_stage(ctx, obj, PREFIXES)
